@@ -123,6 +123,14 @@ pub fn relate_case(cx: &mut Ctx, n: u64, case: &Value) {
     // a deterministic, seed-dependent choice of three maps per case; all maps are used over a run
     let pick: Vec<usize> = (0..3).map(|k| ((n + cx.seed) as usize * 3 + k * 5 + 1) % maps.len()).collect();
 
+    if let Some(pm) = case.get("pin_map").and_then(|v| v.as_str()).and_then(gj::pinned_map) {
+        // pinned case of findings/pinned_cases.ndjson: exactly this input under exactly this map
+        if cx.wants("C01") {
+            let (ta, tb) = (pm.on(&a), pm.on(&b));
+            chk(cx, "C01", "relate_exact_map", case, format!("map {}", pm.name), relate_cc(&ta, &tb), &im);
+        }
+        return;
+    }
     if cx.wants("C01") {
         chk(cx, "C01", "relate", case, "a.relate(b)".into(), relate_cc(&a, &b), &im);
         chk(cx, "C01", "relate_transposed", case, "b.relate(a)".into(), relate_cc(&b, &a), &imt);
@@ -144,6 +152,10 @@ pub fn relate_case(cx: &mut Ctx, n: u64, case: &Value) {
             let m = &maps[k];
             let (ta, tb) = (m.on(&a), m.on(&b));
             chk(cx, prop, "relate_exact_map", case, format!("map {}", m.name), relate_cc(&ta, &tb), &base);
+        }
+        if case["noproper"].as_bool() == Some(true) {
+            let m = gj::pinned_map("shear_2p20").unwrap();
+            chk(cx, prop, "relate_exact_map", case, format!("map {} (no proper crossing)", m.name), relate_cc(&m.on(&a), &m.on(&b)), &base);
         }
     }
     if cx.wants("C17") {
